@@ -422,8 +422,12 @@ type fataler interface {
 	Fatalf(string, ...interface{})
 }
 
+// check executes one case under the watchdog.  hx.Journal is deliberately not called per case: the
+// tracker is pure computation over an immutable radix tree behind one Lock/defer-Unlock pair, panics
+// are recovered by hx.Guard, so there is no process-killing failure mode to leave a journal for, and
+// a journal write per case (a file create+write on disk) tripled the run time (measured 27 s -> 82 s
+// for 150 000 cases).
 func check(t fataler, c caseT) outcome {
-	hx.Journal(c)
 	var out outcome
 	err, hung, panicked := hx.Guard(20*time.Second, func() error {
 		var e error
@@ -635,7 +639,8 @@ func TestKnownZeroLength(t *testing.T) {
 	t.Fatalf("%s", what)
 }
 
-// TestReplayJournal re-executes the case left in a journal by a process-killing failure
+// TestReplayJournal re-executes one case given as a JSON document (the caseT printed in every failure
+// message) in the file named by $VERIF_REPLAY_JOURNAL
 func TestReplayJournal(t *testing.T) {
 	p := os.Getenv("VERIF_REPLAY_JOURNAL")
 	if p == "" {
